@@ -11,7 +11,8 @@ answered with (definitions of SimbodyModel/C11.lean at `K := Float`)
   O ke       ½ Σ ~V M V
   O mom      Σ Phi(r) M V                      (6)
   O power    Σ ~V (M A + b)                    (not for energyC: constrained systems)
-  O momrate  Σ Phi(r) (M A + b)                (not for energyC; the harness side is the applied forces about the
+  O momrate  Σ Phi(r) (M A + b)                (energy; energyF: `momrate+mom`, the same plus the momentum, so that the
+                                                0-vs-0 comparison of a free-floating system has a scale; the harness side is the applied forces about the
                                                 Ground origin plus, for ground-attached trees, the base mobilizer reactions)
 -/
 open Proto C04 C11
@@ -48,7 +49,9 @@ def handle (kind : String) (toks : List String) : List String :=
   let power := (List.zipWith (fun x f => SV.dot x.V f) bs fin).foldl (· + ·) 0
   let momrate := svSum (List.zipWith (fun x f => phi x.r f) bs fin)
   [fmtFloats "O ke" [ke], fmtFloats "O mom" (SV.toList mom)]
-    ++ (if kind == "energyC" then [] else [fmtFloats "O power" [power], fmtFloats "O momrate" (SV.toList momrate)])
+    ++ (if kind == "energyC" then [] else [fmtFloats "O power" [power]])
+    ++ (if kind == "energy" then [fmtFloats "O momrate" (SV.toList momrate)] else [])
+    ++ (if kind == "energyF" then [fmtFloats "O momrate+mom" (SV.toList (SV.add momrate mom))] else [])
 
 def main : IO Unit := do
   let lines ← readStdinLines
@@ -59,5 +62,6 @@ def main : IO Unit := do
       out.putStrLn ln.trimAscii.toString
       if kind == "energy" || kind == "energyF" || kind == "energyC" then
         for o in handle kind rest do out.putStrLn o
+      else if kind == "coverage" then out.putStrLn "O coverage 0"     -- bookkeeping record of the harness (no model content)
       else out.putStrLn ("O " ++ kind ++ " ERR")
     | _ => pure ()
